@@ -56,6 +56,8 @@ ALPHABET = [
     'h::{[t];t::x=1;t}', 'h([1 2 3])', 'h([1 [1]])',
     # a ragged list (an object array: copying it copies only the outer level) amended in depth
     'u::[[1 2] [3 4 5]]', 'b::u:-9,[0 1]',
+    # a shape list with the placeholder -1 (Reshape works the placeholder out in a copy of the shape, not in the operand)
+    's::[-1 2]', 'c::s:^[1 2 3 4 5 6]',
 ]
 
 # depth-4 alphabet of the thorough tier when the full one does not fit (see run()): one representative per mechanism
